@@ -362,3 +362,19 @@ impl VTableIter {
             .map(|(k, v)| (VKey::from(k), v.clone()))
     }
 }
+
+/**
+Create a block cache with the given entry capacity.
+
+`DbOptions::default()` pre-allocates a hash map for 8 Mi entries, which dominates the cost of
+opening the tiny databases a harness works with. The cache implementation is the default one.
+*/
+pub fn new_block_cache(
+    capacity: usize,
+) -> Arc<dyn crate::Cache<crate::tables::BlockCacheKey, Arc<crate::tables::block::DataBlockReader>>>
+{
+    Arc::new(crate::utils::cache::LRUCache::<
+        crate::tables::BlockCacheKey,
+        Arc<crate::tables::block::DataBlockReader>,
+    >::new(capacity))
+}
